@@ -587,7 +587,9 @@ func (x *ctx) writerRules(root *ssa.Function, ctl bool) {
 		siteCalls = append(siteCalls, s.call.(ssa.Instruction))
 	}
 	ordSite := ordinalKeys(siteCalls)
-	sort.Slice(sites, func(i, j int) bool { return ordSite[sites[i].call.(ssa.Instruction)] < ordSite[sites[j].call.(ssa.Instruction)] })
+	sort.Slice(sites, func(i, j int) bool {
+		return ordSite[sites[i].call.(ssa.Instruction)] < ordSite[sites[j].call.(ssa.Instruction)]
+	})
 
 	// ---- MAT-2 per call site
 	for _, s := range sites {
